@@ -34,6 +34,17 @@ def run(F, rep):
         pass        # the declaration order of the fields only matters to a derived comparison
     elif fns == ["storage", "len"]:
         rep.holds("C14.4", "field-order", "derived comparison sees (storage, len): lexicographic order of the bases with a proper prefix first")
+    elif not ({"storage", "len"} <= set(fns)):
+        # other private field names: which field holds the words and which the length is not known to this rule; the interpreted order
+        # table decides the comparison on values (and is itself undecided if it cannot build them)
+        ftys = [f.get("ty", "") for f in (F.adts.get(DS) or {"variants": [{"fields": []}]})["variants"][0]["fields"]]
+        if len(ftys) == 2 and "Vec<u64>" in ftys[0] and ftys[1] == "usize":
+            rep.holds("C14.4", "field-order", "derived comparison sees (%s: the words, %s: the length) in that order" % (fns[0], fns[1]))
+        elif len(ftys) == 2 and ftys[0] == "usize" and "Vec<u64>" in ftys[1]:
+            rep.violated("C14.4", "field-order", "DnaString declares its length (%s) before its words (%s): the derived order is short-lex, not lexicographic" % (fns[0], fns[1]),
+                         witness={"kind": "field-order", "fields": fns})
+        else:
+            rep.inconclusive("C14.4", "field-order", "the private fields of DnaString are %s: no field-order rule for this representation" % fns)
     else:
         rep.violated("C14.4", "field-order", "DnaString fields are declared as %s; with `len` first the derived order is short-lex, not lexicographic" % fns,
                      witness={"kind": "field-order", "got": fns})
